@@ -94,6 +94,9 @@ def make_module():
         return rec(0, (x,), {"y": y})
 
     class Cls(object):
+        def __len__(self):      # instances are falsy (an empty container-like object): binding must not depend on truthiness
+            return 0
+
         @asynq_deco()
         def meth(self, x, y=0):
             return rec(0, (self, x), {"y": y})
